@@ -152,9 +152,15 @@ func main() {
 		if err != nil {
 			panic(err)
 		}
+		scratch := dir
 		if *modroot != "" && d < *vet {
 			os.RemoveAll(dir)
 			dir = filepath.Join(*modroot, fmt.Sprintf("pkg%d", d))
+			os.MkdirAll(dir, 0o755)
+			scratch = dir
+		} else if r.Intn(3) == 0 {
+			// a package directory whose path has characters that mean something to a shell or a glob
+			dir = filepath.Join(scratch, rng.Pick(r, []string{"work[1]", "a*b", "q?x", "two words", "[a-z]", "back\\slash"}), "semantics")
 			os.MkdirAll(dir, 0o755)
 		}
 		used := map[string]bool{}
@@ -264,5 +270,6 @@ func main() {
 		}
 		fmt.Fprintln(w, "E")
 		os.RemoveAll(dir)
+		os.RemoveAll(scratch)
 	}
 }
